@@ -1646,7 +1646,14 @@ impl NotificationProtocol {
                             protocol = %self.protocol,
                             "notification stream to peer closed",
                         );
-                        context.state = PeerState::Closed { pending_open: None };
+
+                        // The message is about the stream the connection handler was serving.
+                        // If the user has closed that stream in the meantime and a new
+                        // negotiation with the peer has started, the state belongs to that
+                        // negotiation and must be left alone.
+                        if matches!(context.state, PeerState::Open { .. }) {
+                            context.state = PeerState::Closed { pending_open: None };
+                        }
                     }
                 }
             },
